@@ -64,15 +64,17 @@ Theorem cssparse_lexer_tok_in_lex : forall d t b, lexer_tok d t b ->
 Proof. exact lexer_tok_in_lex. Qed.
 Print Assumptions cssparse_lexer_tok_in_lex.
 
-(* C08 (partial): a stylesheet whose lexer token list is a sequence of rulesets  ident '{' (ident ':' value ';')* '}'
-   (value: one Ident / Number / Dimension / Percentage / Hash / String token; no whitespace or comments) yields
-   exactly, for every rule in order, BeginRuleset with Values() = [selector], one Declaration with the lower-cased
-   property name and Values() = [value] per declaration, EndRuleset - and then the end-of-input report; no parse
-   error is reported.
+(* C08 (partial): a stylesheet whose lexer token list is a sequence of rulesets
+       ws? ident ws? '{' ( ws? ident ws? ':' ws? value ws? ';' )* ws? '}'          followed by  ws?
+   (ws: a Whitespace token; value: one Ident / Number / Dimension / Percentage / Hash / String token; no comments)
+   yields exactly, for every rule in order, BeginRuleset with Values() = [selector], one Declaration with the
+   lower-cased property name and Values() = [value] per declaration, EndRuleset - and then the end-of-input report;
+   no parse error is reported, and none of the whitespace tokens shows up in Values() (the whitespace rule for
+   the positions of this grammar: before and after a selector, a property name, ':', a value, ';', '{', '}').
    MISSING: at-rules, custom properties, nested rulesets, comments, CDO/CDC, multi-token selectors and values and
-   the whitespace rule (covered by the well-formed-stylesheet oracle only). *)
-Theorem cssparse_wellformed_partial : forall d rules,
-  css_lex d = LexDone (concat (map rule_toks rules)) -> Forall rule_ok rules ->
+   the whitespace rule between their tokens (covered by the well-formed-stylesheet oracle only). *)
+Theorem cssparse_wellformed_partial : forall d rules w,
+  css_lex d = LexDone (concat (map rule_toks rules) ++ optws w) -> Forall rule_ok rules ->
   exists tr, parse_run (length (concat (map rule_units rules)) + 1) (new_parser d false) = POk tr /\
     map view tr = concat (map rule_units rules) ++ [(GError, TError, [], [])] /\ no_err tr.
 Proof. exact cssparse_wellformed_proof. Qed.
